@@ -357,6 +357,7 @@ fn canon(r: Result<Result<(), VerifierError>, String>) -> String {
             VerifierError::InsufficientConjecturedSecurity(a, b) => format!("err:InsufficientConjecturedSecurity({a},{b})"),
             VerifierError::InsufficientProvenSecurity(a, b) => format!("err:InsufficientProvenSecurity({a},{b})"),
             VerifierError::UnacceptableProofOptions => "err:UnacceptableProofOptions".into(),
+            VerifierError::UnsupportedFieldExtension(d) => format!("err:UnsupportedFieldExtension({d})"),
             _ => "err:other".into(),
         },
     }
@@ -586,6 +587,14 @@ fn tampered(r: &mut Rng, f: Fld, real_p: &P, tracelog: u8) -> Vec<(Vec<u8>, u8, 
     let mut a = *real_p;
     a.q = (a.q + 1 + r.below(40) as usize).min(255);
     v.push((m.clone(), tracelog, a, "unknown"));
+    // tampered extension degree: cubic is not supported over f128 (UnsupportedFieldExtension before the channel is built)
+    for d in 1..=3u32 {
+        if d != real_p.deg {
+            let mut a = *real_p;
+            a.deg = d;
+            v.push((m.clone(), tracelog, a, "unknown"));
+        }
+    }
     // foreign fields and hostile moduli
     for g in FIELDS {
         if g != f {
@@ -623,7 +632,12 @@ where
             // levels of THIS context, as the library computes them (the comparison with the model is the check)
             let conj = level(&proof, true, cr).unwrap_or(0);
             let proven = level(&proof, false, cr).unwrap_or(0);
-            for mode in modes_for(r, conj, proven, &p) {
+            let mut modes = modes_for(r, conj, proven, &p);
+            if modulus != f.modulus() {
+                // foreign field: one mode of each kind, accepting and refusing
+                modes = vec![Mode::Conj(0), Mode::Conj(conj + 1), Mode::Proven(0), Mode::Set(vec![p]), Mode::Set(vec![])];
+            }
+            for mode in modes {
                 let res = run_verify::<B, H>(proof.clone(), &real.pubin, &mode);
                 out.push(format!("verify {} {} {} {} {} {} {} => {}", f.name(), cr, hex_bytes(&modulus), tl, p.show(), rest, mode.show(), res));
                 n += 1;
@@ -807,6 +821,9 @@ fn falsify_monotone_sampled(fails: &mut Fails, r: &mut Rng, n: usize) {
                     continue;
                 }
             };
+            if base > cr {
+                fails.report(&format!("{name} level exceeds the hash function's collision resistance"), format!("{name} field={} tracelog={} {} cr={}", f.name(), tl, p.show(), cr), format!("<= {cr}"), base.to_string());
+            }
             // bump each of the four arguments (by one, and by a random amount)
             let mut bumps: Vec<(&str, P, u32)> = vec![];
             for d in [1usize, 1 + r.below(60) as usize] {
@@ -879,6 +896,28 @@ fn falsify_hostile(fails: &mut Fails, r: &mut Rng, n: usize) {
     }
 }
 
+/// the proven estimate at the points documented by the crate's own unit tests (hand-computed by its authors), reached
+/// through the public API
+fn falsify_proven_vectors(fails: &mut Fails) {
+    let vectors: [(usize, usize, u32, u32, u8, u32); 6] = [
+        (80, 4, 20, 3, 18, 97),
+        (53, 8, 20, 3, 18, 97),
+        (85, 8, 20, 3, 18, 128),
+        (65, 16, 20, 3, 18, 128),
+        (85, 8, 20, 2, 18, 67),
+        (85, 8, 20, 3, 18, 128),
+    ];
+    let mut proof = Proof::new_dummy();
+    for (q, b, g, deg, tl, want) in vectors {
+        let p = P::new(q, b, g, deg);
+        let r = ctx_for(Fld::F64, tl, &p).and_then(|c| lvl_ctx(&mut proof, c, false, 128));
+        fails.evals += 1;
+        if r != Ok(want) {
+            fails.report("proven level differs from the crate's documented test vectors", format!("proven field=f64 tracelog={} {} cr=128", tl, p.show()), want.to_string(), format!("{r:?}"));
+        }
+    }
+}
+
 /// (c) policy on real proofs
 fn falsify_policy<B, H>(fails: &mut Fails, r: &mut Rng, f: Fld, cr: u32, pool: &[Real<B>])
 where
@@ -932,9 +971,12 @@ where
             for mode in [Mode::Conj(0), Mode::Proven(0), Mode::Set(vec![p]), Mode::Conj(conj), Mode::Conj(u32::MAX)] {
                 let res = run_verify::<B, H>(proof.clone(), &real.pubin, &mode);
                 fails.evals += 1;
-                if res != "err:InconsistentBaseField" {
-                    fails.report("proof claiming a different field modulus than the AIR's is not refused with InconsistentBaseField",
-                        format!("{desc} claimed-modulus={} mode={}", hex_bytes(&m), mode.show()), "err:InconsistentBaseField".into(), res);
+                if res == "panic" {
+                    fails.report("verify() panics on a proof claiming a different field modulus than the AIR's (must be refused with an error)",
+                        format!("{desc} claimed-modulus={} mode={}", hex_bytes(&m), mode.show()), "err:*".into(), res);
+                } else if !res.starts_with("err:") {
+                    fails.report("verify() accepts a proof claiming a different field modulus than the AIR's",
+                        format!("{desc} claimed-modulus={} mode={}", hex_bytes(&m), mode.show()), "err:*".into(), res);
                 }
             }
         }
@@ -964,6 +1006,7 @@ fn falsify(seed: u64, n: usize) {
     if k < 2 {
         falsify_conj_grid(&mut fails, &tls_all, &[96, 128], 7);
     }
+    falsify_proven_vectors(&mut fails);
     falsify_monotone_sampled(&mut fails, &mut r, n);
     falsify_hostile(&mut fails, &mut r, n);
     let pool = build_pool(&mut r, 6 + n / 3000);
